@@ -27,6 +27,13 @@ logger = logging.getLogger('pyx12.error_999')
 logger.setLevel(logging.DEBUG)
 
 
+def _fixed_width(val, width):
+    """
+    Pad or cut a value to the width of its ISA element
+    """
+    return (val or '').ljust(width)[:width]
+
+
 class error_999_visitor(pyx12.error_visitor.error_visitor):
     """
     Visit an error_handler composite.  Generate a 999.
@@ -68,17 +75,18 @@ class error_999_visitor(pyx12.error_visitor.error_visitor):
         icvn = seg.get_value('ISA12')
         isa_seg = pyx12.segment.Segment('ISA*00*          *00*          ',
                                         self.seg_term, self.ele_term, self.subele_term)
-        isa_seg.set('05', seg.get_value('ISA07'))
-        isa_seg.set('06', seg.get_value('ISA08'))
-        isa_seg.set('07', seg.get_value('ISA05'))
-        isa_seg.set('08', seg.get_value('ISA06'))
+        # ISA elements are fixed width; the values come from a received ISA that may be malformed
+        isa_seg.set('05', _fixed_width(seg.get_value('ISA07'), 2))
+        isa_seg.set('06', _fixed_width(seg.get_value('ISA08'), 15))
+        isa_seg.set('07', _fixed_width(seg.get_value('ISA05'), 2))
+        isa_seg.set('08', _fixed_width(seg.get_value('ISA06'), 15))
         isa_seg.set('09', time.strftime('%y%m%d'))  # Date
         isa_seg.set('10', time.strftime('%H%M'))  # Time
         isa_seg.set('11', self.repetition_term)
-        isa_seg.set('12', icvn)
+        isa_seg.set('12', _fixed_width(icvn, 5))
         isa_seg.set('13', self.isa_control_num)  # ISA Interchange Control Number
         isa_seg.set('14', '0') # No need for TA1 response to 999
-        isa_seg.set('15', seg.get_value('ISA15'))
+        isa_seg.set('15', _fixed_width(seg.get_value('ISA15'), 1))
         isa_seg.set('16', self.subele_term)
         self.wr.Write(isa_seg)
 
